@@ -20,6 +20,8 @@ CLAIMED = {
    text="Checks that a resolution is reported within group_interval+slack when its premises hold, that send_resolved:false never lists resolved alerts, that nothing is listed resolved while it fired during the whole possible flush window (or firing while resolved), that resolved-only first notifications do not occur, and that re-fired alerts are listed again (O1)."),
  "C06": dict(category="exploration", ref="5 (C06)", technique=SIM + "; 2-8 ingestion workers with holds in the group creation loop, maintenance sweep and flush; GET /alerts/groups probes",
    text="Every notification must be one group of one route of the reference router, complete with respect to members eligible during the whole flush window; group keys must be a stable function of (matcher path, group labels); GET /alerts/groups must show the model's partition; new and recreated groups must wait group_wait."),
+ "C08": dict(category="exploration", ref="5 (C08)", technique=SIM + "; 1-3 real clustered instances over the simulated network with loss/dup/delay/partitions, crashes with power-loss outcomes, restarts, late joins; union-of-instances oracles",
+   text="At least once: every alert an up instance holds and that is eligible must be reported firing by some instance within the C01 bound extended by settle time-out + (n-1) x peer time-out (or have been reported within the last repeat_interval and not resolved since), and explicit resolutions must be reported by some instance; no duplicates when healthy: in fault-free runs of at most two instances the merged notification stream obeys the notify-only-on-change rule. Alerts are posted to every live instance, as the property presupposes."),
  "C09": dict(category="exploration", ref="5 (C09)", technique=SIM + "; 2-4 real instances whose silence broadcasts are recorded and re-delivered with loss/dup/delay/reorder/batching; crafted versions; full-state exchanges",
    text="Per-merge safety (never newer->older, nothing past its retention accepted, newer unexpired delivered version wins, no fabricated content, re-merging known data changes nothing and broadcasts nothing, accepted changes are re-broadcast) on every replica, and convergence after two all-pairs full-state exchanges: every replica holds the newest accepted version of every id still within retention, and its Silencer agrees with the direct evaluation."),
  "C10": dict(category="exploration", ref="5 (C10)", technique=SIM + "; crafted notification-log entries through Log.Merge in independent orders, local Log calls, GC, restarts; reference log stepped alongside",
